@@ -65,6 +65,7 @@ fn main() {
         }
         "C16" => c16::run(seed, &tier, shard),
         "C16N" => c16::run_nesting(shard),
+        "C19" => c19::run(seed, &tier, shard, nshards),
         "C12" => {
             if shard == 0 {
                 witness::run_witnesses("C12");
